@@ -473,6 +473,36 @@ def _sim_sleep(seconds):
     sim.yield_point(a, "sleep", round(float(seconds), 6))
 
 
+def _sim_getpid():
+    sim, a = _actor()
+    if a is None:
+        return REAL["getpid"]()
+    return 40000 + a.id          # every simulated process has its own pid
+
+
+def _mk_clock(name, base):
+    def clock():
+        sim, a = _actor()
+        if a is None:
+            return REAL[name]()
+        return base + a.vclock     # the only clock a simulated process can read
+    clock.__name__ = name
+    return clock
+
+
+def _sim_urandom(n):
+    sim, a = _actor()
+    if a is None:
+        return REAL["urandom"](n)
+    k = a.attrs["entropy"] = a.attrs.get("entropy", 0) + 1
+    out = b""
+    i = 0
+    while len(out) < n:
+        out += REAL["sha256"](f"{a.id}:{k}:{i}".encode()).digest()
+        i += 1
+    return out[:n]
+
+
 class _SimNames:
     """Replacement for tempfile._name_sequence: replayable per-actor names."""
 
@@ -565,6 +595,13 @@ def install():
     REAL.update(open=builtins.open, stat=os.stat, lstat=os.lstat, sleep=time.sleep, getcwd=os.getcwd,
                 urlretrieve=urllib.request.urlretrieve, urlopen=urllib.request.urlopen, sha256=hashlib.sha256,
                 hash_new=hashlib.new, connect=socket.socket.connect)
+    REAL.update(getpid=os.getpid, time=time.time, monotonic=time.monotonic, perf_counter=time.perf_counter,
+                urandom=os.urandom)
+    os.getpid = _sim_getpid
+    time.time = _mk_clock("time", 1.7e9)
+    time.monotonic = _mk_clock("monotonic", 1000.0)
+    time.perf_counter = _mk_clock("perf_counter", 1000.0)
+    os.urandom = _sim_urandom
     builtins.open = _sim_open
     io.open = _sim_open
     os.stat = _mk_stat("stat")
